@@ -257,6 +257,9 @@ class P(core.Prop):
         def progress(pct, tag, desc):
             f = Fraction(pct).limit_denominator(100000)
             cur.append(['progress', f.numerator, f.denominator])
+            if case.get('decor', 0) % 3 == 2:
+                # a progress callback with a bug of its own: it must not disturb the creation
+                raise RuntimeError('progress callback fails')
 
         def ok(v):
             try:
